@@ -160,7 +160,8 @@ HasOverlap(rs) == \E i \in 1..Len(rs) : \E j \in (i + 1)..Len(rs) : Overlap(rs[i
 FileRanges(api, rs, chunk) ==
   IF api = "file" THEN rs
   ELSE LET sp == Chunked(rs, IF chunk = 0 THEN DefaultChunk ELSE chunk) IN [j \in 1..Len(sp) |-> sp[j][1]]
-WasSplit(frs, block, maxIop) == Len(Reads(frs, block, maxIop, TRUE)) > Len(Coalesce(frs, block, TRUE))
+\* some coalesced interval is longer than maxIop, i.e. it is read in several pieces
+WasSplit(frs, block, maxIop) == LET m == Coalesce(frs, block, TRUE) IN \E j \in 1..Len(m) : RLen(m[j]) > maxIop
 Class(api, rs, block, maxIop, chunk) ==
   LET frs == FileRanges(api, rs, chunk)
       os  == HasOverlap(frs) /\ WasSplit(frs, block, maxIop)
